@@ -113,29 +113,36 @@ fn from_le(b: &[u8]) -> u64 {
     v
 }
 
-macro_rules! k_read_sized {
+macro_rules! k_read_usized {
     ($name:ident, $bs:expr, $n:expr) => {
-        // oblig: shim.read_usized_isized kind=complete
+        // oblig: shim.read_usized kind=complete
         #[kani::proof]
         fn $name() {
-            let data: [u8; $n + 1] = kani::any();
-            let g: u64 = kani::any();
-            kani::assume(g < 1 << 40);
-            let mut p = SliceParser::new(std::borrow::Cow::Borrowed(&data[..]), Offset::new(g));
+            let data: [u8; $n] = kani::any();
+            let mut p = SliceParser::new(std::borrow::Cow::Borrowed(&data[..]), Offset::zero());
             match p.read_usized($bs) {
-                Ok(v) => {
-                    assert!(v == from_le(&data[..$n]));
-                    assert!(p.global_offset().into_u64() == g + $n);
-                }
+                Ok(v) => assert!(v == from_le(&data[..$n])),
                 Err(_) => assert!(false),
             }
-            // one byte is left, then the parser is exhausted: errors, no panic
-            match p.read_u8() {
-                Ok(v) => assert!(v == data[$n]),
-                Err(_) => assert!(false),
-            }
-            assert!(p.read_u8().is_err());
-            let mut q = SliceParser::new(std::borrow::Cow::Borrowed(&data[..]), Offset::new(g));
+            kani::cover!(data[0] != 0);
+        }
+    };
+}
+k_read_usized!(k_read_usized_1, ByteSize::U1, 1);
+k_read_usized!(k_read_usized_2, ByteSize::U2, 2);
+k_read_usized!(k_read_usized_3, ByteSize::U3, 3);
+k_read_usized!(k_read_usized_4, ByteSize::U4, 4);
+k_read_usized!(k_read_usized_5, ByteSize::U5, 5);
+k_read_usized!(k_read_usized_6, ByteSize::U6, 6);
+k_read_usized!(k_read_usized_7, ByteSize::U7, 7);
+k_read_usized!(k_read_usized_8, ByteSize::U8, 8);
+macro_rules! k_read_isized {
+    ($name:ident, $bs:expr, $n:expr) => {
+        // oblig: shim.read_isized kind=complete
+        #[kani::proof]
+        fn $name() {
+            let data: [u8; $n] = kani::any();
+            let mut q = SliceParser::new(std::borrow::Cow::Borrowed(&data[..]), Offset::zero());
             match q.read_isized($bs) {
                 Ok(v) => {
                     let u = from_le(&data[..$n]);
@@ -144,18 +151,32 @@ macro_rules! k_read_sized {
                 }
                 Err(_) => assert!(false),
             }
-            kani::cover!(data[0] != 0);
+            kani::cover!(data[$n - 1] >= 0x80);
         }
     };
 }
-k_read_sized!(k_read_sized_1, ByteSize::U1, 1);
-k_read_sized!(k_read_sized_2, ByteSize::U2, 2);
-k_read_sized!(k_read_sized_3, ByteSize::U3, 3);
-k_read_sized!(k_read_sized_4, ByteSize::U4, 4);
-k_read_sized!(k_read_sized_5, ByteSize::U5, 5);
-k_read_sized!(k_read_sized_6, ByteSize::U6, 6);
-k_read_sized!(k_read_sized_7, ByteSize::U7, 7);
-k_read_sized!(k_read_sized_8, ByteSize::U8, 8);
+k_read_isized!(k_read_isized_1, ByteSize::U1, 1);
+k_read_isized!(k_read_isized_2, ByteSize::U2, 2);
+k_read_isized!(k_read_isized_3, ByteSize::U3, 3);
+k_read_isized!(k_read_isized_4, ByteSize::U4, 4);
+k_read_isized!(k_read_isized_5, ByteSize::U5, 5);
+k_read_isized!(k_read_isized_6, ByteSize::U6, 6);
+k_read_isized!(k_read_isized_7, ByteSize::U7, 7);
+k_read_isized!(k_read_isized_8, ByteSize::U8, 8);
+// oblig: shim.parser_bounds kind=complete
+#[kani::proof]
+fn k_slice_parser_bounds() {
+    let data: [u8; 3] = kani::any();
+    let g: u64 = kani::any();
+    kani::assume(g < 1 << 40);
+    let mut p = SliceParser::new(std::borrow::Cow::Borrowed(&data[..]), Offset::new(g));
+    assert!(p.skip(2).is_ok());
+    assert!(p.global_offset().into_u64() == g + 2);
+    match p.read_u8() { Ok(v) => assert!(v == data[2]), Err(_) => assert!(false) }
+    assert!(p.skip(1).is_err());
+    assert!(p.skip(0).is_ok());
+    kani::cover!(true);
+}
 
 // oblig: shim.read_fixed kind=complete
 #[kani::proof]
@@ -171,8 +192,6 @@ fn k_read_fixed() {
         }
         _ => assert!(false),
     }
-    assert!(p.skip(1).is_err());
-    assert!(p.skip(0).is_ok());
     kani::cover!(true);
 }
 
